@@ -14,7 +14,7 @@ implementation's own output (kind "prop"): knots reproduced, dense samples bound
 neighbouring ordinates and monotone, C1 across knots, Taylor consistency of the reported derivatives,
 linear / parabola exactness, 2-D nodes / hull / edge continuity / bilinear exactness.
 """
-import bisect, math, os, random, struct
+import bisect, math, random, struct
 from fractions import Fraction
 from common import *
 
@@ -30,9 +30,6 @@ ASSUMPTIONS = ["unit factors: where every product with the factor is exact in do
                "implementation is compared with the model; on general doubles with non-dyadic factors (family unitx) the model, which "
                "multiplies exactly, cannot follow the rounded products and the request is judged by the oracle on the implementation alone, "
                "on the table as the constructor stores it (fl(x*x_dim), fl(y*f_dim))",
-               "OPEN DEFECT C01-2 (proposed repair /tmp/fixprop-C01-2): a table whose STORED abscissae are not strictly increasing (two "
-               "neighbours collapse under the unit factor; a NaN abscissa, 1-D and 2-D) must stop with a diagnostic; while PENDING_C01_2 "
-               "is True an accepting implementation is tolerated and counted (input_distribution.pending_C01_2_accepted:*)",
                "abscissa scale: pow(h,2) and (x-x_j)^3 are formed in doubles, so intervals h below ~1e-103 (h^3, y/h^3 under/overflow) or above "
                "~1e110 ((x-x_j)^3 overflows, 0*inf = NaN) are outside the checked domain; also exact straight-line data are hit (the one-sided end slope is "
                "m*(1+O(eps)), so a = O(eps*m/h^2) overflows below h ~ 1e-101: found by this check at x-scale 2^-339 and 2^-472); generated tables "
@@ -83,11 +80,8 @@ K_ALLOW = 4        # 2-D: factor on the a-priori rounding bound allowance_2d (we
 
 INF = math.inf
 
-# Open defect C01-2 (audit 2, P9; proposed repair /tmp/fixprop-C01-2): the 1-D constructor tests 'strictly increasing' BEFORE
-# the unit conversion and with a comparison NaN passes.  While the repair is not in /repo the strict clause ("a table whose
-# STORED abscissae are not strictly increasing stops with a diagnostic") is tolerated and only counted; it is switched on by
-# setting PENDING_C01_2 = False, or for a rehearsal by LP_ASSUME_FIXED=C01-2.
-PENDING_C01_2 = "C01-2" not in os.environ.get("LP_ASSUME_FIXED", "").replace(" ", "").split(",")
+# Defect C01-2 (audit 2, P9) is repaired in /repo by f6c66e5: a table whose STORED abscissae (after the unit conversion) are not
+# strictly increasing - two neighbours collapsing under the unit factor, a NaN abscissa - stops with a diagnostic.
 
 
 def f32(x):
@@ -1129,9 +1123,6 @@ def compare_oracle_only(P, impl, ctx):
         if tag(impl) == "err":
             return []
         what = "NaN abscissa" if P["tag"] == "nan" else "two abscissae collapse under the unit factor"
-        if PENDING_C01_2:
-            bump(ctx, "pending_C01_2_accepted:" + ("nan" if P["tag"] == "nan" else "collapse"))
-            return []
         return [fail("prop", "a table whose stored abscissae are not strictly increasing was accepted (%s)" % what, impl[:200])]
     if tag(impl) != "ok":
         return [fail("prop", "meaningful request terminated the process", impl[:200])]
